@@ -251,3 +251,87 @@ func TestReproCrashBeforeJump(t *testing.T) {
 			m.NeedBlocks(), tw.bc.BlockHeight(), tw.bc.HeaderHeight(), d.src.P, tw.bc.AddBlock(d.src.blk(1)))
 	}
 }
+
+// reproToMPTStage brings a fresh node of the tiny chain to the MPT stage.
+func reproToMPTStage(t *testing.T) *driver {
+	c := SCase{
+		Chain:  ck.ChainCfg{Profile: "V1C1", SRIH: true, StateExchange: true, StateSyncInterval: 4, MTB: 4},
+		Node:   ck.NodeCfg{Backend: "mem", RemoveUntraceable: true, KeepOnlyLatest: true, GCPeriod: 1},
+		InitAt: 9,
+	}
+	for i := 0; i < 8; i++ {
+		c.Blocks = append(c.Blocks, ck.BlockSpec{TimeD: 1000, Nonce: uint64(i)})
+	}
+	b, err := ck.NewBuilder(c.Chain)
+	if err != nil {
+		t.Fatal(err)
+	}
+	t.Cleanup(b.Close)
+	src := &source{b: b, srih: true, total: 10, P: 8}
+	boot, err := b.Bootstrap()
+	if err != nil {
+		t.Fatal(err)
+	}
+	src.raws = append(src.raws, boot...)
+	for _, s := range c.Blocks {
+		raw, _, err := b.BuildBlock(s)
+		if err != nil {
+			t.Fatal(err)
+		}
+		src.raws = append(src.raws, raw)
+	}
+	if err := src.prepare(); err != nil {
+		t.Fatal(err)
+	}
+	n, err := newSyncNode(c.Chain.Blockchain(c.Node), "mem")
+	if err != nil {
+		t.Fatal(err)
+	}
+	d := &driver{c: c, o: &vt.Obs{}, src: src, n: n, peerH: 9, capH: 10, plain: true}
+	d.stats.restartStage = map[string]int{}
+	t.Cleanup(func() { d.n.close() })
+	if err := d.attach("start"); err != nil {
+		t.Fatal(err)
+	}
+	for d.mod.NeedHeaders() {
+		if err := d.feedHeaders(Step{B: 20}); err != nil {
+			t.Fatal(err)
+		}
+	}
+	if !d.mod.NeedStorageData() {
+		t.Fatal("not in the MPT stage")
+	}
+	return d
+}
+
+// TestReproEmptyNodePanics: one byte from a peer (the serialisation of an empty MPT node, 0x04) delivered through
+// handleMPTDataCmd -> AddMPTNodes makes the syncing node panic ("can't get hash of an EmptyNode") instead of rejecting it.
+func TestReproEmptyNodePanics(t *testing.T) {
+	reproGate(t)
+	d := reproToMPTStage(t)
+	defer func() {
+		if r := recover(); r != nil {
+			t.Fatalf("AddMPTNodes([0x04]) panics: %v", r)
+		}
+	}()
+	err := d.mod.AddMPTNodes([][]byte{{0x04}})
+	t.Logf("AddMPTNodes([0x04]) = %v", err)
+}
+
+// TestReproMPTStageStuckAfterRejectedBatch: the batch that delivers the last missing nodes also carries an undecodable
+// node behind them. AddMPTNodes restores the good nodes, returns the decoding error before looking at the pool, and
+// the module stays in the MPT stage with an empty pool: NeedStorageData() is true, GetUnknownMPTNodesBatch() is
+// empty, so the server never sends a request again and no answer ever calls AddMPTNodes (until a restart).
+func TestReproMPTStageStuckAfterRejectedBatch(t *testing.T) {
+	reproGate(t)
+	d := reproToMPTStage(t)
+	var all [][]byte
+	for _, h := range d.src.order { // pre-order: parents before children
+		all = append(all, d.src.nodesP[h])
+	}
+	err := d.mod.AddMPTNodes(append(all, []byte{0xff}))
+	t.Logf("AddMPTNodes(all %d nodes of the trie + one undecodable node) = %v", len(all), err)
+	if d.mod.NeedStorageData() && len(d.mod.GetUnknownMPTNodesBatch(10)) == 0 {
+		t.Fatalf("stuck: NeedStorageData() = true, NeedBlocks() = %v, GetUnknownMPTNodesBatch() is empty (nothing will ever be requested)", d.mod.NeedBlocks())
+	}
+}
